@@ -519,3 +519,27 @@ package lexer
 //@   loop 2 invariant foralls(s, visited(1, s) && s != state ==> len(out[s]) == len(d.rules[s]))
 //@   loop 2 invariant len(out[state]) == rangeindex + 1 && forall(k, 0, rangeindex + 1, out[state][k] == rules[k].Rule)
 //@   loop 2 decreases len(rules) - rangeindex
+
+// errors.go, api.go: small helpers the properties lean on.
+//@ func errorf [C06 C07]
+//@   fresh result
+//@   ensures result != nil && result.Pos == pos
+//@ func (Token).EOF [C12 C06]
+//@   pure
+//@   ensures result == (t.Type == EOF)
+//@ func (Position).Add [C04]
+//@   pure
+//@   ensures result.Filename == p.Filename && result.Offset == p.Offset + pos.Offset && result.Line == p.Line + pos.Line - 1
+//@   ensures result.Column == ite(pos.Line > 1, pos.Column, p.Column + pos.Column - 1)
+// MakeSymbolTable: the table holds exactly the types of the names given; an unknown name is an error.
+//@ func MakeSymbolTable [C10 C06]
+//@   requires def != nil
+//@   fresh result0
+//@   let syms map[string]TokenType = result0 after call Definition.Symbols#1
+//@   ensures result1 == nil ==> result0 != nil && forall(k, 0, len(types), has(syms, types[k]) && result0[syms[types[k]]])
+//@   ensures result1 == nil ==> forall(t, result0[t] ==> exists(k, 0, len(types), syms[types[k]] == t))
+//@   ensures (result1 != nil) == exists(k, 0, len(types), !has(syms, types[k]))
+//@   loop 1 invariant -1 <= rangeindex && rangeindex < len(types) && table != nil && fresh(table)
+//@   loop 1 invariant forall(k, 0, rangeindex + 1, has(syms, types[k]) && table[syms[types[k]]])
+//@   loop 1 invariant forall(t, table[t] ==> exists(k, 0, rangeindex + 1, syms[types[k]] == t))
+//@   loop 1 decreases len(types) - rangeindex
